@@ -7,7 +7,7 @@ def run(ctx):
     znh = common.build_harness(ctx)
     rnd = random.Random(ctx.seed)
     quick = ctx.tier == "quick"
-    cfgs = ["rt3", "rt2all", "dec4", "dec3all", "dec5", "uplus"] if quick else ["rt3", "rt2all", "rt5", "dec4", "dec3all", "dec5", "dec6", "uplus"]
+    cfgs = ["rt3", "rt2all", "dec4", "dec3all", "dec5", "uplus", "uplus6"] if quick else ["rt3", "rt2all", "rt5", "dec4", "dec3all", "dec5", "dec6", "uplus", "uplus6"]
     vecs = []
     def one(c):
         return common.tlc(ctx, "ZnStr", "MC_ZnStr_%s.cfg" % c, workers=5, timeout=3000)
@@ -20,7 +20,11 @@ def run(ctx):
         rt = [v for v in vecs if v["mode"] == "roundtrip"]
         dec = [v for v in vecs if v["mode"] == "decode"]
         up = [v for v in vecs if v["mode"] == "uplus"]
-        vecs = rnd.sample(rt, 80000) + rnd.sample(dec, 80000) + rnd.sample(up, 40000)
+        # decode direction: every body with at least two back-ticks (a complete back-tick sequence) is replayed, the rest sampled
+        dec_bt = [v for v in dec if v["lit"].count("bt") >= 2]
+        dec_other = [v for v in dec if v["lit"].count("bt") < 2]
+        log("[C13] decode vectors: %d with a back-tick sequence (all replayed), %d others (sampled)" % (len(dec_bt), len(dec_other)))
+        vecs = rnd.sample(rt, 80000) + dec_bt + rnd.sample(dec_other, min(len(dec_other), 40000)) + rnd.sample(up, 40000)
     cases = []
     for i, v in enumerate(vecs):
         e2e = v["lit"][0] in ("ql1", "ql2") and v["ok"] and v["stop"] == len(v["lit"]) and (v["mode"] == "roundtrip" or i % 5 == 0)
@@ -59,8 +63,8 @@ def run(ctx):
                     "digits, other) x openers {“,『,《} x 2 writer styles, plus all texts <= 2 x all 5 openers (thorough: <= 5 over a 10-symbol alphabet): the "
                     "spec's writer output is read by the spec's reader (TLC invariant RoundTrip) and by zh.NextToken (and 输出‹literal› for the “ ” / 「 」 "
                     "families); decode direction: every body <= 4 over 16 symbols, <= 3 over all 29, <= 5 (thorough 6) over 10 symbols: value, closing position and "
-                    "'unterminated => syntax error 27' compared; `U+h..h` with every hex string of <= 8 digits over {1,8,D,F} (surrogates, > 10FFFF, 9 digits) wherever every back-tick sequence is a documented escape (others: totality only). quick replays a "
-                    "seeded 90000 of each direction with 2 concrete representations",
+                    "'unterminated => syntax error 27' compared; `U+h..h` with every hex string of <= 8 digits over {0,1,D,F} and <= 6 over {0,1,8,D,F} (zero padding, surrogates, > 10FFFF) wherever every back-tick sequence is a documented escape (others: totality only). quick replays every decode "
+                    "body that contains a complete back-tick sequence, and a seeded sample (80000 / 40000 / 40000) of the round-trip, other decode and U+ vectors, with 2 concrete representations",
                roundtrip_runs=nrt, decode_runs=ndec, soft_runs=nsoft)
     return cov, ["where the manual does not say how far a failed back-tick escape extends only termination is demanded (flag soft, from the spec)",
-                 "escape names are upper case as documented; hex digits available in the alphabet: 1 8 A B C D F"]
+                 "escape names are upper case as documented; hex digits available in the alphabet: 0 1 8 A B C D F"]
